@@ -24,6 +24,40 @@ from harness import core, tlc, fcsgen
 from harness.core import run_driver
 
 
+def logicle_display(x, T, M=None, W=0.0):
+    """display coordinate of data values under the documented logicle scale, computed independently of the library:
+    S(y) = T 10^-(M-W) (10^(y-W) - p^2 10^(-(y-W)/p) + p^2 - 1) for y >= W, odd about W, p from W = 2p log10(p)/(p+1);
+    inverted by bisection on [0, M] (values beyond the ends are clamped)"""
+    if M is None:
+        M = max(4.5, 4.5 / np.log10(262144) * np.log10(T))
+    if W == 0:
+        pp = 1.0
+    else:
+        lo, hi = 1.0, 1e6
+        for _ in range(200):
+            mid = (lo + hi) / 2
+            if 2 * mid * np.log10(mid) / (mid + 1) < W:
+                lo = mid
+            else:
+                hi = mid
+        pp = (lo + hi) / 2
+
+    def S(y):
+        y = np.asarray(y, dtype=float)
+        u = np.abs(y - W)
+        v = T * 10 ** (-(M - W)) * (10 ** u - pp ** 2 * 10 ** (-u / pp) + pp ** 2 - 1)
+        return np.where(y >= W, v, -v)
+    x = np.asarray(x, dtype=float)
+    lo = np.zeros_like(x)
+    hi = np.full_like(x, float(M))
+    for _ in range(70):
+        mid = (lo + hi) / 2
+        below = S(mid) < x
+        lo = np.where(below, mid, lo)
+        hi = np.where(below, hi, mid)
+    return (lo + hi) / 2
+
+
 def scenario(seed):
     rnd = np.random.RandomState(seed)
     K = int(rnd.randint(6, 9))
@@ -34,7 +68,11 @@ def scenario(seed):
     for c in range(nch):
         m = rnd.uniform(0.9, 1.2)
         b = rnd.uniform(1.0, 5.0)
-        top_rfi = rnd.uniform(2500, 4500)
+        # decades of the channel's log amplifier: in every other scenario the channels (and so their ranges in RFI, 10^4 /
+        # 10^5 / 10^4.5) differ inside one calibration and from one calibration of a process to the next; the ladder
+        # fills the upper part of each channel's own range
+        dec = [4.0, 5.0, 4.5][c] if seed % 2 else 4.0
+        top_rfi = rnd.uniform(2500, 4500) * 10 ** (dec - 4.0)
         # brightness ladder in RFI, then MEF values from the bead model
         rfi = [top_rfi]
         for k in range(K - 1):
@@ -55,7 +93,7 @@ def scenario(seed):
         sat_hi = bool(rnd.randint(4) == 0)
         sat_lo = bool(rnd.randint(4) == 0) and not blank
         unknown = [bool(rnd.randint(5) == 0) for _ in range(K)]
-        chans.append(dict(m=m, b=b, auto=auto_mef, rfi=rfi, mef=mef, sat_hi=sat_hi, sat_lo=sat_lo, unknown=unknown))
+        chans.append(dict(decades=dec, m=m, b=b, auto=auto_mef, rfi=rfi, mef=mef, sat_hi=sat_hi, sat_lo=sat_lo, unknown=unknown))
     cv = rnd.uniform(0.02, 0.05)
     if rnd.randint(2):
         base = int(rnd.randint(220, 700))          # near-equal sizes: the clustering's equal-chunk seeding is adequate
@@ -79,7 +117,7 @@ def run_scenario(sc):
     r = 1024
     # decades of the log amplifier per channel: in every other scenario the channels (and so their ranges in RFI,
     # 10^4 / 10^5 / 10^4.5) differ inside one calibration and from one calibration of this process to the next
-    decades = [4.0, 5.0, 4.5] if sc['seed'] % 2 else [4.0, 4.0, 4.0]
+    decades = [ch['decades'] for ch in sc['chans']]
     cols = []
     for c, ch in enumerate(sc['chans']):
         a0 = decades[c]
@@ -138,14 +176,14 @@ def run_scenario(sc):
                                                  clustering_channels=cl, statistic_fxn=statf, full_output=True)
         margin_ok = True
         for c in range(nch):
-            t = FlowCal.plot._LogicleTransform(data=s[:, [mef_channels[c]]], channel=0).inverted()
             rg = s.range(mef_channels[c])
-            lo, hi = t.transform_non_affine(np.array(rg, dtype=float), mask_out_of_range=False)
+            disp = lambda vals: logicle_display(vals, T=float(rg[1]))     # noqa  (beads are positive: W = 0)
+            lo, hi = disp(np.array(rg, dtype=float))
             tl, th = lo + 0.015 * (hi - lo), lo + 0.985 * (hi - lo)
             for p in range(K):
                 if rec['sat'][c][p]:
                     continue
-                v = t.transform_non_affine(np.asarray(s[pop == p][:, mef_channels[c]].view(np.ndarray), dtype=float), mask_out_of_range=False)
+                v = disp(np.asarray(s[pop == p][:, mef_channels[c]].view(np.ndarray), dtype=float))
                 sd = max(float(np.std(v)), 0.005)
                 if not (np.mean(v) - 4 * sd > tl and np.mean(v) + 4 * sd < th):
                     margin_ok = False
